@@ -48,7 +48,7 @@ type result struct {
 }
 
 const (
-	allocSlack   = 8 << 20
+	allocSlack   = 8<<20 + 1<<20 // 8 MiB of the statement + 1 MiB for the harness' own and background allocations inside the measured window
 	allocFactor  = 64
 	caseWatchdog = 60 * time.Second
 	connWait     = 25 * time.Second
